@@ -2,12 +2,13 @@
 """Markdown table of /verif/seeded/*/meta.json (used for DESIGN.md section 6)."""
 import glob, json, os, re
 rows = []
+NOTES = json.load(open(os.path.join(os.path.dirname(__file__), "..", "seeded", "NOTES.json")))
 for f in sorted(glob.glob(os.path.join(os.path.dirname(__file__), "..", "seeded", "*", "meta.json"))):
     m = json.load(open(f))
     obl = sorted({re.search(r"replay=\S*/(C\d\d)/([A-Za-z0-9_.]+?)-[0-9a-f]{10}\.json", l).group(2) for l in m["check"]["lines"] if "VIOLATION" in l and re.search(r"replay=\S*/(C\d\d)/([A-Za-z0-9_.]+?)-[0-9a-f]{10}\.json", l)})
     det = "detected" if m["check"]["detected"] else ("**missed**" if m["check"]["exit"] == 0 else f"not believed (exit {m['check']['exit']})")
-    note = m.get("note", "")
-    rows.append(f"| {m['id']} | {(m.get('summary') or '')[:150].replace('|', '/')} | {(m.get('needs') or '')[:140].replace('|', '/')} | {det}{' by `' + '`, `'.join(obl) + '`' if obl else ''}{' — ' + note if note else ''} |")
-print("| id | change | needs | result of `bin/check <prop> --tier quick` |")
-print("|---|---|---|---|")
+    note = NOTES.get(m["id"], m.get("note", ""))
+    rows.append(f"| {m['id']} | {(m.get('summary') or '')[:170].replace('|', '/')} | {det}{' by `' + '`, `'.join(obl) + '`' if obl else ''}{' — ' + note if note else ''} |")
+print("| id | change (what it needs to manifest: see seeded/<id>/meta.json) | result of `bin/check <prop> --tier quick` |")
+print("|---|---|---|")
 print("\n".join(rows))
